@@ -5,6 +5,9 @@ from fakesnow import checks
 
 # Implements snowflake's MERGE INTO functionality in duckdb (https://docs.snowflake.com/en/sql-reference/sql/merge).
 
+# temporary helper table created by the first exploded statement and used by the others
+MERGE_CANDIDATES = "merge_candidates"
+
 
 def merge(merge_expr: exp.Expression) -> list[exp.Expression]:
     if not isinstance(merge_expr, exp.Merge):
